@@ -90,6 +90,11 @@ class ProviderModel:
         o = c.run(empty_state())
         return c.final_states(o)
 
+    def paths_and_log(self, name: str, **kw):
+        c = self.client(name, **kw)
+        o = c.run(empty_state())
+        return c.final_states(o), list(c.log)
+
 
 def appended_event(ev: Event, model_fsm: FsmModel, repo: Repo, mod) -> Optional[str]:
     """Name of the event constant an 'append' event adds ('EVT_17'), or None if the
@@ -224,34 +229,42 @@ def action_raise_sets(fsm: FsmModel):
     return out
 
 
-def blocking_problems(finals) -> List[str]:
-    """E5/K1: every blocking call on a path must be bounded by a timeout."""
+def blocking_problems(finals, log=None) -> List[str]:
+    """E5/K1: every blocking call on a path must be bounded by a timeout.  A select() with timeout
+    vouches for exactly one following recv(): a second read (e.g. a drain loop) needs its own."""
     problems = []
+    entries = []
     for s, how in finals:
         tr = list(s.trail)
         for i, ev in enumerate(tr):
+            entries.append((ev, tr[:i]))
+    for ev, st in (log or []):
+        entries.append((ev, list(st.trail)))
+    for ev, before in entries:
+        if True:
             if ev.kind == 'recv':
+                # window: events since the previous read / since the start of this loop iteration
+                window = []
+                for e2 in reversed(before):
+                    if e2.kind in ('recv', 'iterated') or (e2.kind == 'loop' and any(x.kind == 'iterated' for x in before)):
+                        break
+                    window.append(e2)
                 ok = False
-                # a positive select([sock], ..., timeout) test or a settimeout() before it
+                sel_in_window = [e2 for e2 in window if e2.kind == 'select' and len(e2.args) >= 4 and e2.args[3] not in ('None',)
+                                 and 'dul_socket' in e2.args[0]]
                 for c in ev.conds:
                     pol, e = parse_cond(c)
                     if e is None:
                         continue
                     t = ast.unparse(e)
-                    if pol is True and t.startswith('select.select(') :
-                        sel = e
-                        while not isinstance(sel, ast.Call):
-                            sel = sel.value if hasattr(sel, 'value') else None
-                            if sel is None:
-                                break
-                        if isinstance(sel, ast.Call) and len(sel.args) >= 4 and 'dul_socket' in ast.unparse(sel.args[0]):
-                            ok = True
-                    if pol is False and t.startswith('not select.select('):
+                    if ((pol is True and t.startswith('select.select(')) or (pol is False and t.startswith('not select.select('))) \
+                            and sel_in_window:
                         ok = True
-                if any(e2.kind == 'settimeout' for e2 in tr[:i]):
+                if any(e2.kind == 'settimeout' for e2 in before):
                     ok = True
                 if not ok:
-                    problems.append('recv() at line %d can block forever: no select() with timeout (or settimeout) guards it' % ev.line)
+                    problems.append('recv() at line %d can block forever: no select() with timeout (or settimeout) vouches for '
+                                    'this read' % ev.line)
             if ev.kind == 'select':
                 if len(ev.args) < 4 or ev.args[3] in ('None',):
                     problems.append('select() at line %d has no timeout' % ev.line)
